@@ -112,7 +112,7 @@ impl ConnectionState {
     // sending only pushes into the connection's outgoing queue (interior mutability); no broker state changes.
     #[verifier::external_body]
     pub(crate) fn send(&self, msg: VersionedMessage) -> (r: Result<(), ()>)
-        requires self.version.allows(msg.min_minor())
+        requires self.version.allows(msg.min_minor()), msg.allowed_for(self)
     { unimplemented!() }
 }
 
